@@ -8,14 +8,14 @@ import "strings"
 
 type reAst map[string]interface{}
 
-func reChr(c string) reAst      { return reAst{"t": "chr", "c": c} }
-func reAny() reAst              { return reAst{"t": "any"} }
-func reDig() reAst              { return reAst{"t": "dig"} }
-func reCat(l, r reAst) reAst    { return reAst{"t": "cat", "l": l, "r": r} }
-func reAlt(l, r reAst) reAst    { return reAst{"t": "alt", "l": l, "r": r} }
-func reStar(e reAst) reAst      { return reAst{"t": "star", "e": e} }
-func rePlus(e reAst) reAst      { return reAst{"t": "plus", "e": e} }
-func reOpt(e reAst) reAst       { return reAst{"t": "opt", "e": e} }
+func reChr(c string) reAst   { return reAst{"t": "chr", "c": c} }
+func reAny() reAst           { return reAst{"t": "any"} }
+func reDig() reAst           { return reAst{"t": "dig"} }
+func reCat(l, r reAst) reAst { return reAst{"t": "cat", "l": l, "r": r} }
+func reAlt(l, r reAst) reAst { return reAst{"t": "alt", "l": l, "r": r} }
+func reStar(e reAst) reAst   { return reAst{"t": "star", "e": e} }
+func rePlus(e reAst) reAst   { return reAst{"t": "plus", "e": e} }
+func reOpt(e reAst) reAst    { return reAst{"t": "opt", "e": e} }
 func reLit(s string) reAst {
 	var out reAst
 	rs := []rune(s)
